@@ -111,6 +111,15 @@ def func_scen(prop, tier, rng):
                         tl = tails if not q else [tails[(a + b) % len(tails)], tails[(a + b + 1) % len(tails)]]
                         for tail in tl:
                             yield {'kind': kind, 'funcs': [enc(cat[a]), enc(cat[b])], 'ops': [['add', 0, 1]] + [list(o) for o in tail]}
+            # average_profile of three functions one of which has a huge excursion on one piece (values that are not
+            # dyadic): the average is taken piece by piece ("up to rounding" = relative to the local operands), so the
+            # excursion must not leak rounding error into the other pieces
+            big = [Fr(0.3), Fr(7e15), Fr(0.7), Fr(-0.45)]
+            fa = [[Fr(0), Fr(1), Fr(3), Fr(5), Fr(T)], big] + ([[v + Fr(0.1) for v in big]] if kind == 'pwl' else [])
+            fb = [[Fr(0), Fr(2), Fr(T)], [Fr(0.2), Fr(1.1)]] + ([[Fr(0.4), Fr(0.9)]] if kind == 'pwl' else [])
+            fc = [[Fr(0), Fr(1), Fr(4), Fr(T)], [Fr(-0.6), Fr(0.05), Fr(2.3)]] + ([[Fr(0.6), Fr(0.15), Fr(1.3)]] if kind == 'pwl' else [])
+            for order in ([0, 1, 2], [1, 0, 2], [2, 1, 0]):
+                yield {'kind': kind, 'funcs': [enc(fa), enc(fb), enc(fc)], 'ops': [['avg'] + order]}
             # integer-typed receiver (as the PSTH returns) + an operand with fractional values
             half = [[Fr(0), Fr(2), Fr(T)], [Fr(1, 2), Fr(1, 4)]] + ([[Fr(3, 4), Fr(5, 4)]] if kind == 'pwl' else [])
             for a in range(len(cat)):
